@@ -27,7 +27,8 @@ LIST_INT = {'list_i8': (-128, [5, -128, 127]), 'list_u8': (0, [200, 128, 255]),
             # holds both (the writer may refuse the list or widen the type, it must not wrap a value)
             'list_mix8': (0, [200, -1, 100]), 'list_mix16': (0, [40000, -5, 7]), 'list_mix32': (0, [3000000000, -1, 2 ** 31]),
             'list_mix64': (0, [2 ** 63, -1, 5])}
-OTHER = ['list_float', 'list_bool', 'list_str', 'arr_str_U', 'arr_str_O', 'list_datetime', 'arr_dt64', 'arr_tsarray']
+OTHER = ['list_float', 'list_bool', 'list_str', 'arr_str_U', 'arr_str_O', 'list_datetime', 'arr_dt64', 'arr_tsarray',
+         'arr_dt64ns', 'arr_dt64ms', 'arr_dt64s']
 KINDS = list(ND) + list(LIST_INT) + OTHER
 
 _STRS = ['', 'a', 'é', '日本', "q'/ ", 'x' * 40, 'a\x00b', 'Z', '\ufeffbom', '\ufeff']
@@ -75,6 +76,14 @@ def build_data(kind, n, k):
         ds = [_DTS[(k + j) % len(_DTS)] for j in range(n)]
         arr = np.array(ds, dtype='datetime64[us]')
         return arr, 'TimeStamp-us', [v.item() for v in arr.astype('int64')]
+    if kind in ('arr_dt64ns', 'arr_dt64ms', 'arr_dt64s'):
+        # the same instants in another datetime64 unit (pandas hands out [ns]); all pool values are whole milliseconds
+        unit = kind[8:]
+        ds = [_DTS[(k + j) % len(_DTS)] for j in range(n)]
+        if unit == 's':
+            ds = [d.replace(microsecond=0) for d in ds]
+        arr = np.array(ds, dtype='datetime64[us]')
+        return arr.astype('datetime64[%s]' % unit), 'TimeStamp-us', [v.item() for v in arr.astype('int64')]
     if kind == 'arr_tsarray':
         # what reading with raw_timestamps=True returns, and what defragment() feeds the writer
         from nptdms.timestamp import TimestampArray
@@ -85,7 +94,7 @@ def build_data(kind, n, k):
 
 
 def kind_allows_empty(kind):
-    return kind in ND or kind == 'arr_dt64'
+    return kind in ND or kind.startswith('arr_dt64')
 
 
 # ---------------------------------------------------------------------------------------
@@ -134,6 +143,9 @@ def prop_menu(mid):
         out.append(('d64s', d64, 'TimeStamp', ('us', d64.astype('datetime64[us]').astype('int64').item())))
         d64 = np.datetime64('1903-12-31T23:59:59.750000', 'us')
         out.append(('d64neg', d64, 'TimeStamp', ('us', d64.astype('int64').item())))
+        for unit in ('ns', 'ms', 'D'):
+            d64 = np.datetime64('2031-03-04T00:00:00', 'us').astype('datetime64[%s]' % unit) + np.timedelta64(0 if unit == 'D' else 250, unit if unit != 'ns' else 'ms')
+            out.append(('d64' + unit, d64, 'TimeStamp', ('us', d64.astype('datetime64[us]').astype('int64').item())))
         for i, (s, f) in enumerate(_TSS[:3]):
             out.append(('ts%d' % i, TdmsTimestamp(s, f), 'TimeStamp', ('ts', s, f)))
         return out
